@@ -130,9 +130,12 @@ func (r *c20Reader) ReadPacketData() ([]byte, *gopacket.CaptureInfo, error) {
 	if k < len(r.script) {
 		switch r.script[k] {
 		case oFrame, oProcErr:
-			b := make([]byte, 5)
+			b := make([]byte, 6)
 			binary.BigEndian.PutUint32(b, uint32(k))
 			b[4] = r.script[k]
+			if k < len(r.variant) {
+				b[5] = byte(r.variant[k])
+			}
 			return b, ci, nil
 		default:
 			return nil, ci, r.outcomeErr(k)
@@ -152,14 +155,38 @@ func (p *c20Proc) ProcessPacketData(data []byte, _ *gopacket.CaptureInfo) error 
 	id := int(binary.BigEndian.Uint32(data))
 	p.seen = append(p.seen, id)
 	if data[4] == oProcErr {
-		return &idErr{"process", id}
+		return c20ProcErr(id, int(data[5]))
 	}
 	return nil
 }
 
+// c20ProcErr is the error the processor returns for frame id. Whatever its value - also one that
+// would be transient or fatal had the *reader* returned it (a processor that decodes a truncated
+// frame returns io.ErrUnexpectedEOF, one that answers over a socket a timeout) - it is a processing
+// error: reported once, never a reason to stop or to stay silent.
+func c20ProcErr(id, v int) error {
+	switch v {
+	case 3:
+		return &net.OpError{Op: "write", Net: "udp", Err: c20Timeout{}}
+	case 5:
+		return io.EOF
+	case 6:
+		return io.ErrUnexpectedEOF
+	case 7:
+		return syscall.EAGAIN
+	case 8:
+		return syscall.ECONNRESET
+	case 9:
+		return syscall.EBADF
+	case 10:
+		return io.ErrShortBuffer
+	}
+	return &idErr{"process", id}
+}
+
 // c20Model folds the first k outcomes: frames to process and errors to report, and whether
 // the receiver must have terminated (fatal outcome).
-func c20Model(script []byte, k int) (frames []int, errs []string, fatalAt int, unknowns int) {
+func c20Model(script []byte, variant []int, k int) (frames []int, errs []string, fatalAt int, unknowns int) {
 	fatalAt = -1
 	for i := 0; i < k && i < len(script); i++ {
 		switch script[i] {
@@ -167,7 +194,11 @@ func c20Model(script []byte, k int) (frames []int, errs []string, fatalAt int, u
 			frames = append(frames, i)
 		case oProcErr:
 			frames = append(frames, i)
-			errs = append(errs, (&idErr{"process", i}).Error())
+			v := 0
+			if i < len(variant) {
+				v = variant[i]
+			}
+			errs = append(errs, c20ProcErr(i, v).Error())
 		case oUnknown:
 			errs = append(errs, (&idErr{"unknown", i}).Error())
 			unknowns++
@@ -370,7 +401,7 @@ func runC20(t *testing.T, c simrt.Chooser, o Opts) *Out {
 		return out
 	}
 	k := rd.calls
-	frames, errs, fatalAt, _ := c20Model(script, k)
+	frames, errs, fatalAt, _ := c20Model(script, sc.Variant, k)
 
 	// The scenario always ends by a fatal outcome or a cancel, except when the script has no
 	// fatal outcome and no cancel was planned: then the reader blocks forever and the run
@@ -389,7 +420,7 @@ func runC20(t *testing.T, c simrt.Chooser, o Opts) *Out {
 			}
 		}
 		k := rd.calls
-		_, errs, _, _ := c20Model(script, k)
+		_, errs, _, _ := c20Model(script, sc.Variant, k)
 		if len(got) > len(errs) || !eqStrs(got, errs[:len(got)]) {
 			out.violate("C20.errors", "errors", "error stream %v is not a prefix of the model's %v (script %q)", got, errs, sc.Script)
 		}
